@@ -87,6 +87,10 @@ class IndexSum(Operator):
     def _simplify_indexed(self, multiindex):
         """Return a simplified Expr used in the constructor of Indexed(self, multiindex)."""
         A, i = self.ufl_operands
+        if i[0] in multiindex:
+            # The summation index is bound here: moving an outer index with
+            # the same name into the sum would capture it
+            return Operator._simplify_indexed(self, multiindex)
         return IndexSum(Indexed(A, multiindex), i)
 
     def evaluate(self, x, mapping, component, index_values):
